@@ -64,3 +64,20 @@ Definition ema_adjusted (arr : list fl) (alpha : Qc) : list fl :=
 (* decay used by the executable instance: elapsed time in whole halflives *)
 Fixpoint half_pow (n : nat) : Qc := match n with O => 1%Qc | S m => (half_pow m / Q2Qc (inject_Z 2))%Qc end.
 Definition decay_halflives (halflife : Z) (dt : Z) : Qc := half_pow (Z.to_nat (dt / halflife)).
+
+(* The formulas the model stands for (regenerated table: Gen/TablesGen.gen_ema_formulas, tied in Proofs/GenTie.v):
+   beta = 1 - alpha per group row; with times, beta = exp(-log 2 * dt / halflife) = (1/2)^(dt / halflife), a
+   homomorphism from elapsed time to factors (the [decay] parameter of the timed kernels); halflife h counted in rows
+   means alpha = 1 - exp(-log 2 / h) = 1 - 2^(-1/h). *)
+From Coq Require Import String.
+Open Scope string_scope.
+Definition ema_formulas : list (string * string * string) :=
+  [("_ema_adjusted", "beta", "1 - alpha");
+   ("_ema_unadjusted", "beta", "1 - alpha");
+   ("_ema_time_weighted", "hl", "(times[i] - times[i - 1]) / halflife");
+   ("_ema_time_weighted", "beta", "np.exp(-np.log(2) * hl)");
+   ("ema", "alpha", "1 - np.exp(-np.log(2) / halflife)");
+   ("_ema_grouped", "beta", "1 - alpha");
+   ("_ema_grouped_timed", "hl", "(times[i] - last_seen_times[k]) / halflife");
+   ("_ema_grouped_timed", "beta", "np.exp(-np.log(2) * hl)");
+   ("ema_grouped", "alpha", "1 - np.exp(-np.log(2) / halflife)")].
